@@ -111,11 +111,38 @@ mod env {
         unsafe { String::from_utf8_unchecked(out) }
     }
 
+    /// Model of Result::unwrap_or_default that does not run the error's drop glue: VarError hides its
+    /// discriminant in the capacity niche of an OsString and CBMC reports a spurious free of the
+    /// (non-existent) OsString when `Err(NotPresent)` is dropped.
+    pub fn unwrap_or_default_stub<T: Default, E>(r: Result<T, E>) -> T {
+        match r {
+            Ok(x) => x,
+            Err(e) => {
+                core::mem::forget(e);
+                // T is String at the only call site. Kani 0.68 does not track the zero capacity constant of
+                // `String::new()` (a pattern-type niche): dropping it is reported as a bogus free. An empty
+                // string with spare capacity is observationally the same.
+                assert!(core::mem::size_of::<T>() == core::mem::size_of::<String>());
+                let mut s = String::from("x");
+                s.clear();
+                let t = unsafe { core::mem::transmute_copy::<String, T>(&s) };
+                core::mem::forget(s);
+                t
+            }
+        }
+    }
+
     pub fn env_var_stub<K: AsRef<std::ffi::OsStr>>(_k: K) -> Result<String, std::env::VarError> {
         unsafe {
             match ENV {
                 0 => Err(std::env::VarError::NotPresent),
-                1 => Ok(String::new()),
+                1 => {
+                    // an empty value; built with a non-zero capacity because CBMC mis-tracks the
+                    // capacity niche of `Ok(String::new())` inside Result<String, VarError>
+                    let mut s = String::from("x");
+                    s.clear();
+                    Ok(s)
+                }
                 _ => Ok(String::from("1")),
             }
         }
@@ -246,41 +273,46 @@ fn draw_text() -> ([u8; N], usize) {
 
 /// C20 with UPDATE_GOLDEN unset or empty: `new` fails iff the file is absent; `assert(got)` returns iff
 /// got == CRLF-normalised content; nothing is ever written or created.
-fn no_update(mismatch: bool) {
+struct NoUpdate {
+    w: World,
+    g: Option<Golden>,
+    got: [u8; N],
+    got_len: usize,
+    equal: bool,
+    had_crlf: bool,
+}
+
+fn no_update_prefix() -> NoUpdate {
     let present = file_present();
     let envv = vk::below(2); // unset or set-but-empty
     let (content, len) = draw_text();
     let (got, got_len) = draw_text();
     let w = setup(present, content, len, envv);
-    let got_s: &str = unsafe { std::str::from_utf8_unchecked(&got[..got_len]) };
-    vk::note(&|| format!("file present={} content={:?} UPDATE_GOLDEN={} got={:?}", present, &content[..len], ["unset", "empty"][envv as usize], got_s));
-    let g = Golden::new(w.path.clone());
-    match g {
+    vk::note(&|| format!("file present={} content={:?} UPDATE_GOLDEN={} got={:?}", present, &content[..len], ["unset", "empty"][envv as usize], &got[..got_len]));
+    let g = match Golden::new(w.path.clone()) {
         Err(e) => {
             core::mem::forget(e); // io::Error drop glue is not the subject
             assert!(!present, "C20: Golden::new fails although the golden file exists");
+            None
         }
         Ok(g) => {
             assert!(present, "C20: missing golden file is not an error without UPDATE_GOLDEN");
-            let (norm, nlen) = normalise(&content, len);
-            let equal = eq_bytes(&norm, nlen, &got, got_len);
-            if mismatch {
-                vk::assume(!equal);
-                g.assert(got_s);
-                // only reached if assert returned
-                panic!("C20: assert succeeded although got differs from the golden content");
-            } else {
-                vk::assume(equal);
-                g.assert(got_s); // must return: a panic here is reported by the solver
-                vk_cover!(len > nlen, "content had a CRLF");
-            }
-            core::mem::forget(g); // destruction of the model-built strings is not the subject
+            Some(g)
         }
-    }
-    let (now_present, now, now_len, writes, _) = observe(&w);
+    };
+    let (norm, nlen) = normalise(&content, len);
+    let equal = eq_bytes(&norm, nlen, &got, got_len);
+    NoUpdate { w, g, got, got_len, equal, had_crlf: len > nlen }
+}
+
+fn no_update_postcheck(w: &World) {
+    let (now_present, now, now_len, writes, _) = observe(w);
     assert!(writes == 0, "C20: file written without UPDATE_GOLDEN");
-    assert!(now_present == present && (!present || eq_bytes(&now, now_len, &content, len)), "C20: golden file created or modified without UPDATE_GOLDEN");
-    cleanup(&w);
+    assert!(
+        now_present == w.present && (!w.present || eq_bytes(&now, now_len, &w.content, w.len)),
+        "C20: golden file created or modified without UPDATE_GOLDEN"
+    );
+    cleanup(w);
 }
 
 #[cfg_attr(kani, kani::proof)]
@@ -289,9 +321,18 @@ fn no_update(mismatch: bool) {
 #[cfg_attr(kani, kani::stub(std::fs::write, env::write_stub))]
 #[cfg_attr(kani, kani::stub(std::env::var, env::env_var_stub))]
 #[cfg_attr(kani, kani::stub(str::replace, env::str_replace_stub))]
+#[cfg_attr(kani, kani::stub(core::result::Result::unwrap_or_default, env::unwrap_or_default_stub))]
 #[cfg_attr(kani, kani::stub(alloc::fmt::format, crate::verif_env::fmt_format_stub))]
 pub fn c20_no_update_equal() {
-    no_update(false);
+    let mut s = no_update_prefix();
+    if let Some(g) = s.g.take() {
+        vk::assume(s.equal);
+        let got_s: &str = unsafe { std::str::from_utf8_unchecked(&s.got[..s.got_len]) };
+        g.assert(got_s); // must return: a panic here is reported by the solver
+        vk_cover!(s.had_crlf, "content had a CRLF");
+        core::mem::forget(g); // destruction of the model-built strings is not the subject
+    }
+    no_update_postcheck(&s.w);
 }
 
 #[cfg_attr(kani, kani::proof)]
@@ -300,9 +341,31 @@ pub fn c20_no_update_equal() {
 #[cfg_attr(kani, kani::stub(std::fs::write, env::write_stub))]
 #[cfg_attr(kani, kani::stub(std::env::var, env::env_var_stub))]
 #[cfg_attr(kani, kani::stub(str::replace, env::str_replace_stub))]
+#[cfg_attr(kani, kani::stub(core::result::Result::unwrap_or_default, env::unwrap_or_default_stub))]
 #[cfg_attr(kani, kani::stub(alloc::fmt::format, crate::verif_env::fmt_format_stub))]
 pub fn c20_no_update_mismatch() {
-    no_update(true);
+    let mut s = no_update_prefix();
+    if let Some(g) = s.g.take() {
+        vk::assume(!s.equal);
+        // nothing may have been written before the comparison fails either
+        let (_, _, _, writes, _) = observe(&s.w);
+        assert!(writes == 0, "C20: file written without UPDATE_GOLDEN");
+        vk_cover!(s.had_crlf, "differing content with a CRLF reaches assert");
+        let got_s: &str = unsafe { std::str::from_utf8_unchecked(&s.got[..s.got_len]) };
+        #[cfg(kani)]
+        {
+            g.assert(got_s);
+            // only reached if assert returned
+            panic!("C20: assert succeeded although got differs from the golden content");
+        }
+        #[cfg(not(kani))]
+        {
+            // natively the expected panic is caught; only its absence is a failure
+            let r = std::panic::catch_unwind(std::panic::AssertUnwindSafe(|| g.assert(got_s)));
+            assert!(r.is_err(), "C20: assert succeeded although got differs from the golden content");
+            no_update_postcheck(&s.w);
+        }
+    }
 }
 
 /// C20 with UPDATE_GOLDEN non-empty: `new` succeeds also for a missing file, `assert(got)` returns and the
@@ -313,6 +376,7 @@ pub fn c20_no_update_mismatch() {
 #[cfg_attr(kani, kani::stub(std::fs::write, env::write_stub))]
 #[cfg_attr(kani, kani::stub(std::env::var, env::env_var_stub))]
 #[cfg_attr(kani, kani::stub(str::replace, env::str_replace_stub))]
+#[cfg_attr(kani, kani::stub(core::result::Result::unwrap_or_default, env::unwrap_or_default_stub))]
 #[cfg_attr(kani, kani::stub(alloc::fmt::format, crate::verif_env::fmt_format_stub))]
 pub fn c20_update() {
     let present = file_present();
